@@ -130,6 +130,9 @@ func checkTyped(tc TypedCase) vrep.Result {
 	for _, a := range c.Atts {
 		targets[a.ID] = vgen.Target(a.ID)
 	}
+	if c.Summary > 0 {
+		targets[c.Summary] = vgen.Target(c.Summary)
+	}
 	N := len(targets)
 	rendered := cur.String(c.Width)
 	bound, err := bind(rendered)
@@ -228,6 +231,9 @@ func rawObject(c Case) map[string]any {
 	o["type"] = "Note"
 	o["content"] = c.Doc.Content
 	o["mediaType"] = c.Doc.MediaType
+	if c.Summary > 0 {
+		o["summary"] = summaryText(c)
+	}
 	if len(c.Atts) > 0 {
 		list := []any{}
 		for _, a := range c.Atts {
